@@ -37,7 +37,15 @@ let run_endpoint (parts : string list) : string =
     let sni = if served && tls && snivis then (if sni_txt = "" then "-" else sni_txt) else "-" in
     let host = (match ep.ep_host with Some h when served && hs <> "fail" -> txt h | _ -> "-") in
     let x = if served && hs <> "fail" then "ok" else "fail" in
-    Printf.sprintf "new=ok net=%s dial=%s sni=%s hs=%s host=%s x=%s" net dial sni hs host x
+    (* protocol major of the request that carries the Host / :authority: plain http and an h1-only https server
+       speak HTTP/1.1, https negotiates h2, h3 is HTTP/3 *)
+    let hv = if host = "-" then "-" else
+        (match ep.ep_scheme, ep.ep_h3 with
+         | SHttp, _ -> "1"
+         | SHttps, true -> "3"
+         | SHttps, false -> if fld_opt f "h1" = Some "1" then "1" else "2"
+         | _ -> "-") in
+    Printf.sprintf "new=ok net=%s dial=%s sni=%s hs=%s host=%s hv=%s x=%s" net dial sni hs host hv x
   | Err _ -> "new=err"
   | Panic -> "PANIC!"
   | OutOfFuel -> "HANG"
@@ -101,7 +109,11 @@ let run_upcfg (parts : string list) : string =
   match upc_case url da o peer (b "srvreq") with
   | None -> "start=err"
   | Some ((ok, tls), dial) ->
-    Printf.sprintf "start=ok dial=%s x=%s || spec=ok tls=%d" (txt dial) (if ok then "ok" else "fail") (if tls then 1 else 0)
+    (* the Host / :authority of the DoH request the server receives: ep_host of the upstream the router builds *)
+    let host = (match upc_init_upstream { upc_tag = upc_tag_u; upc_addr = url; upc_dial_addr = da; upc_tls = o } with
+                | Ok u -> (match u.uu_ep.ep_host with Some h when ok -> txt h | _ -> "-")
+                | _ -> "-") in
+    Printf.sprintf "start=ok dial=%s host=%s x=%s || spec=ok tls=%d" (txt dial) host (if ok then "ok" else "fail") (if tls then 1 else 0)
 
 let () = register "upcfg" run_upcfg
 let () = register "addr" run_addr
